@@ -10,7 +10,16 @@ OUT = "self.stream.sock"
 def register(S):
     S.declare_fields("Channel", stream="obj:SocketStream", compress="bool")
     S.contract(F + "Channel.send", params={"self": "obj:Channel", "data": "bytes"},
-               requires=["self.stream.sock is not ClosedFile", "not self.stream.sock.failed", "fits(data)"],
+               dispatch=[("self.stream.sock is ClosedFile", "closed"), (None, "default")],
+               behaviours={"closed": dict(init={"self.stream.sock": "ClosedFile"}, noreturn=True,
+                                          # sending on a closed channel always fails (a frame is never empty)
+                                          raises={"EOFError": {"state": ["self.stream.sock is ClosedFile"],
+                                                               "props": ["C11", "C08"], "modifies": []},
+                                                  "struct.error": {"only_when": "not fits(data)", "props": ["C11"],
+                                                                   "modifies": []}},
+                                          modifies=[], reveal=["frame"])},
+               requires=["self.stream.sock is not ClosedFile", "not self.stream.sock.failed"],
+               reveal=["frame"], returns_when=["fits(data)"],
                ensures={"writes_exactly_one_frame": (
                    "old(self.stream.sock).outbuf == old(self.stream.sock.outbuf) + frame(data, True) or "
                    "old(self.stream.sock).outbuf == old(self.stream.sock.outbuf) + frame(data, False)",
@@ -19,7 +28,10 @@ def register(S):
                    "old(self.stream.sock).outbuf == old(self.stream.sock.outbuf) + "
                    "frame(data, published_flag(data, self.compress))", ["C19"]),
                    "still_open": ("self.stream.sock is old(self.stream.sock)", P5)},
-               raises={"EOFError": {"state": ["self.stream.sock is ClosedFile", "old(self.stream.sock).failed"], "props": P5,
+               raises={"struct.error": {"only_when": "not fits(data)", "props": P5, "modifies": [],
+                                        "state": ["self.stream.sock is old(self.stream.sock)",
+                                                  "self.stream.sock.outbuf == old(self.stream.sock.outbuf)"]},
+                       "EOFError": {"state": ["self.stream.sock is ClosedFile", "old(self.stream.sock).failed"], "props": P5,
                                     "sets": {"self.stream.sock": "ClosedFile"},
                                     "modifies": ["self.stream.sock", "self.stream.sock.outbuf",
                                                  "self.stream.sock.shut_attempted", "self.stream.sock.closed",
@@ -27,7 +39,7 @@ def register(S):
                modifies=["self.stream.sock.outbuf"])
     S.contract(F + "Channel.recv", params={"self": "obj:Channel"}, result="bytes", behaviours={
         "roundtrip": dict(
-            ghost={"d": "bytes", "c": "bool", "rest": "bytes"},
+            ghost={"d": "bytes", "c": "bool", "rest": "bytes"}, reveal=["frame"],
             native_build="{'self': mkchannel(frame(d, c) + rest)}",
             requires=["self.stream.sock is not ClosedFile", "not self.stream.sock.failed",
                       "self.stream.sock.inbuf == frame(d, c) + rest", "fits(d)"],
